@@ -491,6 +491,8 @@ def run(ck, facts, tier):
     c05.rule_branch_accounting(ck, facts)
     c05.rule_cursor(ck, facts)
     c12.rule_predicate_recursion(ck, facts)
+    c12.rule_vm_walker_offsets(ck, facts)  # a walker that skips an element releases a live box: use after free
+    rule_type_substitution(ck, facts)
     guards.run(ck, facts, "C03.guarded-index", ["mimium_lang", "state_tree", "mimium_scheduler", "mimium_audiodriver"])
     from ..rules import errdrop, rewrite
 
@@ -500,3 +502,41 @@ def run(ck, facts, tier):
     c03_unsafe.run(ck, facts, cg, tier)
     ck.not_decided("absence of index/overflow/division panics (compiler-inserted asserts are counted in the evidence only)")
     ck.not_decided("termination of user programs; 'dsp yields exactly the declared number of words' (run-time stack discipline)")
+
+
+def rule_type_substitution(ck, facts):
+    """monomorphisation rewrites the types carried by the instructions of the copy it specialises"""
+    R = "C03.type-substitution"
+    ck.rule(R, "the function that substitutes concrete types into the instructions of a specialised (monomorphised) copy has an explicit arm for every mir::Instruction variant whose payload carries a type (a TypeNodeId field, directly or in a list of typed operands): a variant that falls into the catch-all keeps the generic type, whose word size counts each type variable as one word — the specialised function then moves / returns fewer words than its callers expect (`invalid number of return value` panic on the VM)")
+    lang = facts.crate(roles.LANG)
+    cands = []
+    for f in lang.fns:
+        if "::compiler::mirgen" not in f.path or f.kind == "promoted" or "::test" in f.path:
+            continue
+        # role: a function over `&mut Instruction` that is handed substitution closures (dyn Fn(TypeNodeId) -> TypeNodeId)
+        argc = f.d["argc"]
+        tys = [f.local_ty(i) for i in range(1, argc + 1)]
+        if any("mir::Instruction" in t and t.startswith("&mut") for t in tys) and any("Fn(" in t and "TypeNodeId" in t for t in tys):
+            cov = cover.coverage(facts, f, roles.MIR_INSTR)
+            if cov and cov.primary is not None:
+                cands.append((f, cov))
+    ck.require(R, len(cands) == 1, "anchor|substitution", "expected one instruction-level type substitution function in the MIR generator, found %d" % len(cands))
+    if len(cands) != 1:
+        return
+    f, cov = cands[0]
+    adt = facts.adt(roles.MIR_INSTR)
+    typed = {v["n"] for v in adt["variants"] if any("TypeNodeId" in fld[1] for fld in v["f"])}
+    ck.floor(R, "typed_instruction_variants", len(typed), 15)
+    handled = cov.primary_handled()
+    prod = None
+    for v in sorted(typed):
+        key = "arm|%s" % v
+        if v in handled:
+            ck.ok(R, key)
+            continue
+        if prod is None:
+            prod = set(cover.constructed_variants([g for g in roles.non_derived(facts) if g.path != f.path], roles.MIR_INSTR))
+        if v not in prod:
+            ck.ok(R, key, {"variant": v, "discharge": "never constructed"})
+            continue
+        ck.bad(R, key, "%s has no arm for Instruction::%s, which carries a type: the monomorphised copy of a generic function keeps the generic type there — `fn dup(x:a)->(a,a)` called as `dup((1.0,2.0))` returns 2 words where the call site expects 4" % (f.short, v), f.where())
